@@ -52,6 +52,8 @@ class ExprMixin:
             return T.scalar(T.XINT, T.XIntS.fin(self.coerce(v, T.INT).t))
         if ty == T.INT and v.ty == T.BOOL:
             return T.sv_int(z3.If(v.t, 1, 0))
+        if isinstance(ty, T.Map) and isinstance(v.ty, T.Map) and ty.k == v.ty.k == T.INT and ty.v == T.REAL and v.ty.v == T.INT:
+            return T.sv_map(T.INT, T.REAL, v.dom, TH.SEQ_TOREAL(v.val))      # {int: int} read as {int: float}
         if isinstance(ty, T.Seq) and isinstance(v.ty, T.Seq) and ty.e == T.REAL and v.ty.e == T.INT:
             return T.sv_seq(T.REAL, v.len, TH.SEQ_TOREAL(v.at))
         if isinstance(ty, T.Bag) and isinstance(v.ty, T.Set) and ty.e == v.ty.e:
